@@ -176,48 +176,6 @@ def rule_1(ctx):
     ctx.floor(6, 'inspections of token text in parser/tokenizer/operand node/XLFormula')
 
 
-def _roles(ctx):
-    """Roles of the closures/locals of getTokens, found by what they do (not by their names)."""
-    tm = ctx.mod('tokenizer')
-    fn = tm.func('ExcelParser.getTokens')
-    formula = [a.arg for a in fn.args.args if a.arg != 'self'][0]
-    readers, lookahead, eof = {}, set(), set()
-    for name, node in tm.funcs.items():
-        if not name.startswith('ExcelParser.getTokens.'):
-            continue
-        short = node.name
-        idx = [s for s in ast.walk(node) if isinstance(s, ast.Subscript) and not isinstance(s.slice, ast.Slice)
-               and isinstance(s.value, ast.Name) and s.value.id == formula]
-        guarded = any(isinstance(s, ast.Try) for s in ast.walk(node))
-        if idx and not guarded:
-            readers[short] = node
-        if idx and guarded:
-            lookahead.add(short)
-        if any(isinstance(c, ast.Compare) and any(isinstance(x, ast.Call) and isinstance(x.func, ast.Name)
-               and x.func.id == 'len' and names_in(x) & {formula} for x in ast.walk(c)) for c in ast.walk(node)):
-            eof.add(short)
-    if not readers or not eof:
-        raise AnchorMissing('getTokens: reader / end-of-input closures not found')
-    offset_names = set()
-    for node in readers.values():
-        for s in ast.walk(node):
-            if isinstance(s, ast.Subscript):
-                offset_names |= names_in(s.slice)
-    return {'tm': tm, 'fn': fn, 'formula': formula, 'readers': readers, 'lookahead': lookahead, 'eof': eof,
-            'offset': offset_names}
-
-
-def _main_loop(ctx):
-    r = _roles(ctx)
-    tm, fn = r['tm'], r['fn']
-    loops = [s for s in fn.body if isinstance(s, ast.While)
-             and any(isinstance(c, ast.Call) and isinstance(c.func, ast.Name) and c.func.id in r['eof']
-                     for c in ast.walk(s.test))]
-    if len(loops) != 1:
-        raise AnchorMissing(f'getTokens: {len(loops)} main `while not <end of formula>` loops')
-    return tm, fn, loops[0]
-
-
 PREFIX_WITNESSES = [
     '=SUM(A1,"a""b",{1,2;3,4})*-50%+\'My S\'!$B$2:C3&#N/A>=1.5E+3',
     '=IF([Book1]Sheet1!A1<>"",TRUE, B1 C1)',
@@ -250,36 +208,6 @@ def rule_2(ctx):
                    'is not preceded by a still-valid end-of-formula test')
     ctx.floor(4, 'prefix families')
     ctx.note(f'{n} prefixes tokenized')
-
-
-def stmt_test(site):
-    s = flow.stmt_of(site)
-    if isinstance(s, (ast.If, ast.While)):
-        return s.test
-    return s
-
-
-def _is_not_eof(test, eof_names, polarity):
-    """test/polarity pair equivalent to `not EOF()` being true."""
-    if isinstance(test, ast.UnaryOp) and isinstance(test.op, ast.Not):
-        return _is_eof_call(test.operand, eof_names) and polarity is True
-    if _is_eof_call(test, eof_names):
-        return polarity is False
-    return False
-
-
-def _is_eof_call(n, eof_names):
-    return isinstance(n, ast.Call) and isinstance(n.func, ast.Name) and n.func.id in eof_names
-
-
-def _after_argument_separator(site):
-    """The read sits in the branch that has just consumed a ',' (its enclosing arm tests == ',')."""
-    for c in flow.path_conditions(site):
-        if c.kind == 'if' and c.polarity and any(
-                isinstance(x, ast.Constant) and x.value == ',' for x in ast.walk(c.test)):
-            own = stmt_test(site)
-            return any(isinstance(x, ast.Constant) and x.value == ',' for x in ast.walk(own))
-    return False
 
 
 GRAMMAR_OPERANDS = ['TOK_SUBTYPE_TEXT', 'TOK_SUBTYPE_NUMBER', 'TOK_SUBTYPE_LOGICAL',
